@@ -299,7 +299,9 @@ def run_render_doc(spec: dict, rng, n_perm: int) -> list[dict]:
             dabs = doc_abstract(loaded)
             tagtbl, santbl = tables_for(dabs)
             # the model speaks about tag keys; the files are named by module: same string for the tags used here
-            usable = all(NameSanitizer.sanitize_module_name(t) == k for t, k in tagtbl)
+            # (a document whose generation fails - since the fix of F07f an unparsable operation is a ValueError, not a
+            #  skipped operation - has no package to compare with the model: oracle only; it must fail in EVERY variant)
+            usable = r.ok and all(NameSanitizer.sanitize_module_name(t) == k for t, k in tagtbl)
             cases.append({"input": {"kind": "render", "variant": name, "spec": spec if kind == "rendering" else loaded},
                           "abs": {"doc": dabs, "graph": ref_graph(loaded), "tags": tagtbl, "san": santbl, "usable": usable},
                           "obs": {"ok": r.ok, "error": r.error, "method_order": man["method_order"],
@@ -529,7 +531,7 @@ def main(chk: Check, replay: dict | None = None) -> int:
                          tag="render") if chk.model_ok else None
     chk.decide(usable, codes, {1: "F02a", 2: "F02c"},
                "render: Render.emitted_by_tag(parse_doc d) = methods per endpoints module of the generated package")
-    chk.decide([c for c in render_cases if not c["abs"]["usable"]], None, {}, "render (no model: tag/module names differ)")
+    chk.decide([c for c in render_cases if not c["abs"]["usable"]], None, {}, "render (no model: generation failed, or tag/module names differ)")
     by_variant: dict[str, int] = {}
     for c in render_cases:
         v = re.sub(r"_\d+$", "", c["input"]["variant"])
@@ -539,6 +541,7 @@ def main(chk: Check, replay: dict | None = None) -> int:
                       "with_path_level_parameters": sum(1 for s_ in specs if any(isinstance(i, dict) and "parameters" in i for i in s_["paths"].values())), "generations": len(render_cases),
                       "by_variant": by_variant,
                       "oracle_failures": sum(1 for c in render_cases if c["oracle_fail"]),
+                      "generation_failed": sum(1 for c in render_cases if not c["obs"]["ok"]),
                       "cyclic_documents": sum(1 for c in render_cases if not py_acyclic(c["abs"]["graph"]))}
 
     # ---------------- keys
